@@ -1103,6 +1103,10 @@ impl Exec {
     }
 
     pub fn step(&mut self, op: &J) -> Vec<J> {
+        // the database is gone (a reopen failed or panicked - the trace already says so): nothing can be executed but another reopen
+        if self.db.is_none() && op["e"].as_str() != Some("reopen") {
+            return vec![json!({"e": "note", "what": "skipped: no database", "step": op["e"]})];
+        }
         if self.tolerant {
             if !self.applicable(op) {
                 return vec![json!({"e": "note", "what": "skipped", "step": op["e"]})];
